@@ -1257,12 +1257,90 @@ fn gen_c07(cfg: &GenCfg, rng: &mut Rng, w: &mut dyn Write, kind: &str) {
     }
 }
 
+/// C05, mechanism "pre_gc/post_gc bracket every removal so weak (borrowed) cache entries are
+/// cleared": results are dropped at once, so the only thing left pointing at them is the apply
+/// cache; then anything that may remove nodes (gc, add_vars, reordering) runs, the same operations
+/// are repeated (their memoised results must not be served if the node is gone) and the store is
+/// dumped with its reference counts.
+fn gen_c05_weak(cfg: &GenCfg, rng: &mut Rng, w: &mut dyn Write, kind: &str) {
+    let cases = if cfg.thorough { 60 } else { 8 } * cfg.scale;
+    for c in 0..cases {
+        let n = rng.range(2, 4) as u32;
+        let cache = *rng.pick(&[16usize, 65536]);
+        writeln!(w, "case c05-weak-{}-n{}-c{}", c, n, cache).unwrap();
+        writeln!(w, "mgr nodes=65536 cache={} threads=1 vars={}", cache, n).unwrap();
+        let mut pool: Vec<String> = Vec::new();
+        for v in 0..n {
+            writeln!(w, "var x{} {}", v, v).unwrap();
+            writeln!(w, "notvar nx{} {}", v, v).unwrap();
+            pool.push(format!("x{v}"));
+            pool.push(format!("nx{v}"));
+        }
+        writeln!(w, "const t 1").unwrap();
+        writeln!(w, "const f 0").unwrap();
+        pool.push("t".into());
+        pool.push("f".into());
+        for s in 0..6 {
+            writeln!(w, "op z{} {} {} {}", s, rng.pick(&BIN_OPS), rng.pick(&pool), rng.pick(&pool)).unwrap();
+            pool.push(format!("z{s}"));
+        }
+        let mut nvars = n;
+        for round in 0..(if cfg.thorough { 8 } else { 5 }) {
+            // operations whose results die immediately (tautologies and contradictions included:
+            // x or not x, x and not x, x equiv x, ...)
+            let mut ops: Vec<String> = Vec::new();
+            for _ in 0..8 {
+                let a = rng.pick(&pool).clone();
+                let b = if rng.chance(1, 3) {
+                    // the complement / the same operand: results that are constants or single nodes
+                    if let Some(r) = a.strip_prefix("nx") { format!("x{r}") } else if let Some(r) = a.strip_prefix('x') { format!("nx{r}") } else { a.clone() }
+                } else {
+                    rng.pick(&pool).clone()
+                };
+                ops.push(format!("{} {} {}", rng.pick(&BIN_OPS), a, b));
+            }
+            for (i, o) in ops.iter().enumerate() {
+                writeln!(w, "op tmp{} {}", i, o).unwrap();
+                writeln!(w, "drop tmp{}", i).unwrap();
+            }
+            match (round + c) % 4 {
+                0 => writeln!(w, "gc").unwrap(),
+                1 if nvars < 6 => {
+                    writeln!(w, "addvars 1").unwrap();
+                    nvars += 1;
+                }
+                2 if !zbdd(kind) => {
+                    let mut order: Vec<u32> = (0..nvars).collect();
+                    rng.shuffle(&mut order);
+                    writeln!(w, "order {}", order_str(&order)).unwrap();
+                }
+                _ => {}
+            }
+            for (i, o) in ops.iter().enumerate() {
+                writeln!(w, "op again{} {}", i, o).unwrap();
+            }
+            // garbage is present here, so the model does not predict the store: oracle only
+            writeln!(w, "rcchk").unwrap();
+            for i in 0..ops.len() {
+                writeln!(w, "drop again{}", i).unwrap();
+            }
+        }
+        writeln!(w, "dropall").unwrap();
+        writeln!(w, "gc").unwrap();
+        writeln!(w, "dump").unwrap();
+    }
+}
+
 fn generate(cfg: &GenCfg, rng: &mut Rng, w: &mut dyn Write) {
     let kind = cfg.extra.get("kind").map(|s| s.as_str()).unwrap_or("bdd").to_string();
     let suite = cfg.extra.get("suite").map(|s| s.as_str()).unwrap_or("c02").to_string();
     match suite.as_str() {
         "c02" => gen_c02(cfg, rng, w, &kind),
-        "c01" | "c03" | "c05" => gen_hist(cfg, rng, w, &kind, &suite),
+        "c01" | "c03" => gen_hist(cfg, rng, w, &kind, &suite),
+        "c05" => {
+            gen_hist(cfg, rng, w, &kind, &suite);
+            gen_c05_weak(cfg, rng, w, &kind);
+        }
         "c06" => gen_c06(cfg, rng, w, &kind),
         "c07" => gen_c07(cfg, rng, w, &kind),
         "c08" => gen_c08(cfg, rng, w, &kind),
